@@ -2,6 +2,7 @@
 computed as the length of the leading directive prologue (not a bounded constant, not a test for the
 exact text 'use strict'), and the three insertion sites agree on the predicate."""
 from .. import hir
+from .. import travrules as T
 from ..engine import AnchorMissing
 from ..prov import Prov, origin_str
 
@@ -227,11 +228,45 @@ def run(check):
     from ..engine import Only as _Only
     check.rule("PAREN-KEPT", "no output position receives the bare content of an input ParenExpr: `('use strict');` at the head of a body must not be printed as the directive `'use strict';`")
     check.guarded("PAREN-KEPT", lambda c: _X.rule_hoist_paren(_Only(c, "GROUP", "PAREN-KEPT", ("/paren-strip",))))
+    check.guarded("NO-NEW-DIRECTIVE", rule_no_new_directive)
     return {
         "explanation": "Value-set analysis of the index argument of every statement-list insertion (provenance of the index through helpers), with the recognised correct idiom `iter().take_while(can_precede_directive).count()` over the same list.",
         "assumptions": ["Stmt::can_precede_directive (swc_ecma_ast) is true exactly for expression statements that are string literals"],
         "not_decided": ["strictness of the running code (a consequence)", "directives written with parentheses are not directives in ECMAScript either"],
     }
+
+
+def rule_no_new_directive(check):
+    """NO-NEW-DIRECTIVE: an expression statement whose expression is a string literal, at the head of a body,
+    is a directive.  The rewriter never turns an expression of another kind (a template without
+    substitutions, a parenthesised string, a constant sum) into a string literal"""
+    R = "NO-NEW-DIRECTIVE"
+    check.rule(R, "the rewriter builds no string-literal node (swc_ecma_ast::Str struct, Lit::Str(..) of a value that is not the matched literal itself, Str::from / .into() conversions): replacing an expression by a string literal turns the statement \`use strict\`; at the head of a body into the directive 'use strict';")
+    prog = check.prog
+    from .. import xformrules as _X
+
+    n_fn = 0
+    hits = []
+    for f in prog.user_fns:
+        if f.rec.get("gen"):
+            continue
+        n_fn += 1
+        for n in f.nodes():
+            k = n.get("k")
+            if k == "Struct" and (n["res"].get("path") or "").endswith("swc_ecma_ast::Str") and not _X._functional_update(f, n):
+                hits.append((f, n, "Str { .. }"))
+            elif k == "Call":
+                f0 = hir.peel(n["f"])
+                cp = f0.get("res", {}).get("ctor_path") if f0.get("k") == "Path" else None
+                if cp and cp.endswith("swc_ecma_ast::Lit::Str") and not _X._rewrap(f, n):
+                    hits.append((f, n, "Lit::Str(..)"))
+            if hir.is_call(n) and not n.get("exp") and (hir.callee_name(n) or n.get("method")) in ("from", "into", "new", "from_tpl_raw") and (n.get("ty") or "").endswith("swc_ecma_ast::Str"):
+                hits.append((f, n, "a conversion into Str"))
+    for f, n, what in hits:
+        check.bad(R, "%s/%s" % (R, T.short(f)), hir.loc(n), "%s builds a string literal node (%s): an expression that is replaced by it and stands alone at the head of a function body or file becomes a directive" % (T.short(f), what))
+    check.floor(R, "crate functions inspected", n_fn, 100)
+    if not hits:
+        check.ok(R, R + "/inventory", "-", "no string-literal node is built in %d crate functions" % n_fn)
 
 
 READS = {"iter", "len", "is_empty", "first", "last", "get", "clone", "as_slice", "contains", "to_vec", "split_first", "split_last"}
